@@ -11,6 +11,7 @@ import Qryn.Proofs.TraceQLLimit
 import Qryn.Proofs.TraceQLTree
 import Qryn.Proofs.PromSelect
 import Qryn.Proofs.ProfSelector
+import Qryn.Prof.SelectorCtx
 /-! # C13 — every read is confined to the requested time window and signal type
 
 `Confine.confined` is a structural predicate on statements (every base-table scan carries timestamp
@@ -249,17 +250,18 @@ end Qryn.C13
 namespace Qryn.C13
 open Qryn Qryn.Sql Qryn.LogQL Qryn.Confine
 
-/-- **all_scans_confined_series.** `SeriesPlanner.Process` (GET /loki/api/v1/series) over every selector of the
-    fragment: the time_series scan carries `date ≥ date(From − 30 min)`, `date ≤ date(To)` (UTC) and the type
-    filter, the fingerprint sub-queries are confined as in `all_scans_confined_logql`. Both table layouts. -/
-theorem all_scans_confined_series (cfg : Cfg) (c : Ctx) (h : LokiCfg cfg c) (q : LogQuery) :
-    confined cfg (winOf c) (planSeries c q) = true :=
-  planSeries_confined cfg c h q
+/-- **all_scans_confined_series.** `SeriesPlanner.Process` (GET /loki/api/v1/series) over every stream selector
+    (`PlanFingerprints` plans the matchers only): the time_series scan carries `date ≥ date(From − 30 min)`,
+    `date ≤ date(To)` (UTC) and the type filter, the fingerprint sub-query the covering lower date bound and the
+    type filter. Both table layouts. -/
+theorem all_scans_confined_series (cfg : Cfg) (c : Ctx) (h : LokiCfg cfg c) (ms : List Matcher) :
+    confined cfg (winOf c) (planSeries c ms) = true :=
+  planSeries_confined cfg c h ms
 
 /-- **all_scans_confined_values.** `ValuesPlanner.Process` (label values), with a selector or without one. -/
-theorem all_scans_confined_values (cfg : Cfg) (c : Ctx) (h : LokiCfg cfg c) (key : Bytes) (q : Option LogQuery) :
-    confined cfg (winOf c) (LogQL.planValues c key q) = true :=
-  planValues_confined cfg c h key q
+theorem all_scans_confined_values (cfg : Cfg) (c : Ctx) (h : LokiCfg cfg c) (key : Bytes) (ms : Option (List Matcher)) :
+    confined cfg (winOf c) (LogQL.planValues c key ms) = true :=
+  planValues_confined cfg c h key ms
 
 /-- **all_scans_confined_prom.** The statements of the Prometheus remote-read path, for every matcher list and
     every `SelectHints` (every function name, step and range): the raw-sample statement of
@@ -273,11 +275,6 @@ theorem all_scans_confined_prom (cfg : Cfg) (c : Ctx) (h : LokiCfg cfg c) (m15 :
     confined cfg (winOf c) (Prom.transpileDown c m15 hh ms) = true :=
   ⟨transpileRaw_confined cfg c h hh ms, transpileDown_confined cfg c h m15 hm hh ms⟩
 
-/-- the Pyroscope selector query for a window: `StreamSelectorPlanner.Process` with the dates it renders from
-    `ctx.From` / `ctx.To` (tied to the real planner's text by the `model-prof` stream) -/
-def profSelector (table : String) (fromNs toNs : Int) (sels : List Prof.Selector) : Option Prof.PQuery :=
-  Prof.plan table (Time.formatFromDate fromNs) (Time.formatDate (Int.fdiv toNs 1000000000)) sels
-
 /-- **prof_selector_confined.** For every selector list (pseudo-labels, key/value selectors, any operators) the
     Pyroscope fingerprint query keeps both date bounds: a fingerprint it returns has an index row whose date lies
     between the UTC date of `From − 30 min` and the UTC date of `To` (byte order of `YYYY-MM-DD`), and both
@@ -285,7 +282,7 @@ def profSelector (table : String) (fromNs toNs : Int) (sels : List Prof.Selector
     key/value selectors (the recorded limit of the bit-set scheme, C17). -/
 theorem prof_selector_confined (re : Bytes → Bytes → Bool) (table : String) (fromNs toNs : Int) (sels : List Prof.Selector)
     (h63 : (sels.filter (fun s => !Prof.isGlobal s)).length ≤ 63) (tbl : List Prof.PRow) (f : Nat) :
-    ∃ q, profSelector table fromNs toNs sels = some q ∧
+    ∃ q, Prof.profSelector table fromNs toNs sels = some q ∧
       q.fromDate = Time.formatFromDate fromNs ∧ q.toDate = Time.formatDate (secOf toNs) ∧
       Prom.fnOf "Ge" = ">=" ∧ Prom.fnOf "Le" = "<=" ∧
       (f ∈ q.eval re Gen.PromSelect.shiftWidth tbl →
